@@ -43,6 +43,13 @@ Literals == << <<"true", "boolean">>, <<"false", "boolean">>, <<"null", "null">>
                <<"\"{\"", "string">>, <<"\"[\"", "string">>, <<"\"a\\\"b\"", "string">>, <<"\".\"", "string">>,
                <<"\"e\"", "string">>, <<"\"-1.0E+2\"", "string">>, <<"\"@a\"", "string">> >>
 
+\* every text in double quotes whose body is made of up to three of these pieces (plain characters, characters that
+\* mean something elsewhere in the language, every kind of escape) is a string literal
+StrPieces == <<"a", ".", "1", "e", "{", "@", "/", " ", "\\\\", "\\\"", "\\n", "\\u0041", "\\/">>
+RECURSIVE Concat(_, _)
+Concat(f, i) == IF i > Len(f) THEN "" ELSE StrPieces[f[i]] \o Concat(f, i + 1)
+StringLiterals == {"\"" \o Concat(f, 1) \o "\"" : f \in UNION {[1..n -> 1..Len(StrPieces)] : n \in 0..3}}
+
 VARIABLES ta, tb
 tvVars == <<ctl, txt, first, phase, ta, tb>>
 
@@ -71,6 +78,6 @@ EmitNumber == (ta = "none" /\ ctl \in Final) =>
               PrintT(ToJson([kind |-> "number", text |-> txt, expect |-> KindOfNumber(txt)]))
 EmitVocab == (ta = "none" /\ txt = <<>>) =>
               PrintT(ToJson([kind |-> "vocab", types |-> Types, near |-> NearMisses, scalars |-> Scalars,
-                             jsonTypes |-> JsonTypeNames, literals |-> Literals,
+                             jsonTypes |-> JsonTypeNames, literals |-> Literals, strings |-> StringLiterals,
                              tokens |-> [t \in Types |-> TokenOf(t)]]))
 ===============================================================================
